@@ -107,7 +107,7 @@ func (x *Exec) nativeMethod(e *Env, callee *types.Func, recv ast.Expr, n *ast.Ca
 		}
 		return x.bigMethod(e, callee, recv, n)
 	}
-	if pp == "hash" || pp == "io" || strings.HasPrefix(key, "Hash.") || strings.HasPrefix(key, "Writer.") {
+	if pp == "hash" || pp == "io" || strings.HasPrefix(key, "Hash.") || strings.HasPrefix(key, "Writer.") || strings.HasPrefix(key, "SpongeFunction.") {
 		if rv, ok := x.peekValue(e, recv); ok {
 			if h, isHash := rv.(HashV); isHash {
 				return x.hashMethod(e, recv, h, callee.Name(), n)
@@ -227,6 +227,13 @@ func (x *Exec) nativeFunc(e *Env, callee *types.Func, n *ast.CallExpr) (Value, b
 		}
 		r.Cap = r.Len
 		return r, true
+	case "github.com/iotaledger/iota.go/curl.NewCurlP81":
+		h := x.newHash("curlp81", nil)
+		h.Elem = types.Typ[types.Int8]
+		if sig, ok := callee.Type().(*types.Signature); ok && sig.Results().Len() == 1 {
+			_ = sig
+		}
+		return h, true
 	case "crypto/sha512.New":
 		return x.newHash("sha512", nil), true
 	case "crypto/sha256.New":
